@@ -7,13 +7,14 @@ from ..env import Fxp, parse_list, tok_list, lims, exc_token, tok_frac, to_float
 from .. import gen as G
 from .. import carriers as C
 from ..arith import hist_of
+from .. import arith as A
 from . import base
 
 TRUSTED_BASE = base.TRUSTED_BASE
 ASSUMPTIONS = base.ASSUMPTIONS + ['reading: a "write" is one call of __call__/set_val/__setitem__ (and the re-store done by resize) on an existing real-valued object; construction and complex writes are not counted',
                                   '"results of arithmetic" = results of the binary operators/functions that go through the function wrappers']
 RULE = ('HIST lines: random histories (<=10 steps) of scalar/array writes by call and set_val (values as numbers/lists, every third time inside another exact Fxp object), indexed writes, reset, resize and arithmetic-derive on formats <=52 bits with a recording Callback; after every step flags, fired callbacks (in order) '
-        'and, for derive steps, the inaccuracy flag of x+y (operator, function, function with out=, np.add with out=, config.op_out holder, out_like=) are compared. Write values sit at hi, hi+1/4 LSB, hi+1, lo, lo-1/4 LSB, lo-1, codes and ties. non-trivial = a history in which some flag was raised')
+        'and, for derive steps, the inaccuracy flag of x+y (operator, function, function with out=, np.add with out=, config.op_out holder, out_like=) are compared. Write values sit at hi, hi+1/4 LSB, hi+1, lo, lo-1/4 LSB, lo-1, codes and ties. AR/AO lines (a third of C08\'s): binary operations under every sizing policy and into out / out_like targets, observed with the inaccuracy flags of both operands and of the result. non-trivial = a history in which some flag was raised, or any AR/AO line')
 TECHNIQUE = 'Lean 4 theorems on the status state machine (flags iff conditions, trace exact, stickiness by induction over histories, reset, propagation) + differential correspondence of flag/callback traces'
 LEVEL_TEXT = ('Machine-checked on the status state machine: a write from any state raises overflow/underflow/inaccuracy exactly when some rounded element exceeds the maximum / is below the minimum / some stored element differs from its input; the callback trace of a write is the '
               'conditions that occurred (each once, in order) followed by exactly one value-change; a raised flag stays raised along every history without reset (induction over histories); reset clears the three flags and nothing else; arithmetic results inherit inaccuracy. '
@@ -112,7 +113,17 @@ def exec_HIST(t):
     return out
 
 
-EXEC = {'HIST': exec_HIST}
+def exec_AR_ia(t):
+    return A.exec_AR(t, ia=True)
+
+
+def exec_AO_ia(t):
+    return A.exec_AO(t, ia=True)
+
+
+# arithmetic lines of C08 (every sizing policy, out / out_like targets), here observed with the inaccuracy flags of both
+# operands and of the result: the result carries the flag iff an operand carried it or its own store was inexact
+EXEC = {'HIST': exec_HIST, 'AR': exec_AR_ia, 'AO': exec_AO_ia}
 
 
 def wval(rng, s, n, f):
@@ -160,9 +171,19 @@ def generate(tier, rng):
                     steps.append('D:%d' % rng.choice([0, 1]))
         if ok and steps:
             yield 'HIST %d %s %d %d %s %s %s' % (size, 's' if s else 'u', n, f, r, o, ' '.join(steps))
+    # results of arithmetic: AR / AO lines as in C08, with the inaccuracy flags observed
+    from . import c08
+    k = 0
+    for l in c08.generate(tier, rng):
+        if l.startswith(('AR ', 'AO ')):
+            k += 1
+            if k % 3 == 0:
+                yield l
 
 
 def nontrivial(full_line, model):
+    if not full_line.startswith('HIST'):
+        return True
     return any(tok[:3] != '000' for tok in model.split())
 
 
@@ -171,9 +192,12 @@ def kf_class(t):
 
 
 def debug_class(t):
+    if t[0] != 'HIST':
+        return ' '.join(t[0:5])
     return 'HIST size=%s kinds=%s' % (t[1], ''.join(sorted(set(tok[0] for tok in t[7:]))))
 
 
 def stats(verdicts):
-    return base.generic_stats(verdicts, lambda t: ['size:' + t[1], 'ovf:' + t[6], 'round:' + t[5]] + ['step:' + k for k in sorted(set(tok[0] for tok in t[7:]))],
-                              lambda t: len(t[7:]), [])
+    return base.generic_stats(verdicts, lambda t: (['op:HIST', 'size:' + t[1], 'ovf:' + t[6], 'round:' + t[5]] + ['step:' + k for k in sorted(set(tok[0] for tok in t[7:]))]) if t[0] == 'HIST'
+                              else ['op:' + t[0], 'policy:' + t[2]],
+                              lambda t: len(t[7:]) if t[0] == 'HIST' else 1, [])
